@@ -243,8 +243,29 @@ func lcgBytes(seed uint64, n int) []byte {
 	return b
 }
 
-func bigBody(kind, size int, seed uint64, cd, thr int, encb bool) int {
-	body := lcgBytes(seed, size)
+// kinds 0 text / 1 bytes: incompressible pseudo-random content; kinds 2 text / 3 bytes: highly
+// compressible content (64 KiB runs whose value depends on the run index and the seed), so that
+// bodies far larger than any frame limit still fit a frame once deflated.
+func bigContent(kind, size int, seed uint64) []byte {
+	if kind < 2 {
+		return lcgBytes(seed, size)
+	}
+	b := make([]byte, size)
+	for i := range b {
+		b[i] = byte(uint64(i>>16)*131 + seed)
+	}
+	return b
+}
+
+func bigBody(kind, size int, seed uint64, cd, thr int, encb bool) (code int, got int) {
+	body := bigContent(kind, size, seed)
+	got = -1
+	code = bigBody1(kind%2, body, cd, thr, encb, kind >= 2, &got)
+	return
+}
+
+func bigBody1(kind int, body []byte, cd, thr int, encb, compressible bool, got *int) int {
+	size := len(body)
 	p := packet.New(77, 9, 0, nil)
 	if kind == 0 {
 		p.SetBody(string(body))
@@ -279,7 +300,7 @@ func bigBody(kind, size int, seed uint64, cd, thr int, encb bool) int {
 		ec, dc = cipher.NewAESCFB(aesKey, aesIV), cipher.NewAESCFB(aesKey, aesIV)
 	}
 	// must cross: uncompressed frames that fit, compressed ones with 1 KiB to spare
-	must := size <= limit && (thr >= size || size+1024 <= limit)
+	must := compressible || (size <= limit && (thr >= size || size+1024 <= limit))
 	var buf bytes.Buffer
 	q := packet.Make()
 	_, werr := enc.WritePacket(&buf, ec, p)
@@ -297,6 +318,9 @@ func bigBody(kind, size int, seed uint64, cd, thr int, encb bool) int {
 			return 3
 		}
 		return 0
+	}
+	if v, ok := q.Body().([]byte); ok {
+		*got = len(v)
 	}
 	if v, ok := q.Body().([]byte); !ok || !bytes.Equal(v, body) {
 		return 3
@@ -322,7 +346,8 @@ func concurrentBodies(seed uint64, g, iters int) (code int, checked int64) {
 			defer wg.Done()
 			pn, _ := Catch(func() {
 				r := NewRng(seed + uint64(id)*104729)
-				encs := []codec.Encoder{codec.NewV1Encoder(0), codec.NewV2Encoder(0)}
+				// the process-wide registered instances, as the servers hand them to every connection
+				encs := []codec.Encoder{codec.GetEncoder("V1"), codec.GetEncoder("V2")}
 				for i := 0; i < iters && atomic.LoadInt64(&bad) == 0; i++ {
 					v := int64(r.Next()) >> uint(r.Intn(64))
 					bits := r.Next()
@@ -351,6 +376,25 @@ func concurrentBodies(seed uint64, g, iters int) (code int, checked int64) {
 						atomic.CompareAndSwapInt64(&bad, 0, 4)
 						return
 					}
+					// a refusal of this goroutine's own request through the shared encoder
+					req := packet.New(int32(1000+id), uint16(i), 0, nil)
+					rec := &recorder{}
+					req.SetEndpoint(rec)
+					req.RefuseWith(int32(2000+id), ec)
+					buf.Reset()
+					q = packet.Make()
+					if len(rec.sent) != 1 {
+						atomic.CompareAndSwapInt64(&bad, 0, 4)
+						return
+					}
+					if _, err := e.WritePacket(&buf, nil, rec.sent[0]); err != nil {
+						atomic.CompareAndSwapInt64(&bad, 0, 4)
+						return
+					}
+					if err := e.ReadPacket(&buf, nil, q); err != nil || q.Errno() != ec || q.Seq() != uint16(i) || q.Command() != int32(2000+id) {
+						atomic.CompareAndSwapInt64(&bad, 0, 4)
+						return
+					}
 					buf.Reset()
 					q = packet.Make()
 					if _, err := e.WritePacket(&buf, nil, pa); err != nil {
@@ -368,7 +412,7 @@ func concurrentBodies(seed uint64, g, iters int) (code int, checked int64) {
 						atomic.CompareAndSwapInt64(&bad, 0, 3)
 						return
 					}
-					atomic.AddInt64(&n, 5)
+					atomic.AddInt64(&n, 6)
 				}
 			})
 			if pn {
@@ -569,7 +613,8 @@ func run1(in Sx) Sx {
 		q3 := through(3 - cd)
 		return List(Int(1), Bytes(w0), Str(s0), w1, s1, q1, q2, q3)
 	case 7:
-		return List(Int(7), Int(int64(bigBody(in.At(1).AsInt(), in.At(2).AsInt(), in.At(3).Uint64(), in.At(4).AsInt(), in.At(5).AsInt(), in.At(6).AsBool()))))
+		code, got := bigBody(in.At(1).AsInt(), in.At(2).AsInt(), in.At(3).Uint64(), in.At(4).AsInt(), in.At(5).AsInt(), in.At(6).AsBool())
+		return List(Int(7), Int(int64(code)), Int(int64(got)))
 	case 4:
 		h := hdrOf(in.At(1))
 		p := h.packet()
@@ -672,7 +717,17 @@ func intRange(k int) (lo int64, hi uint64) {
 		return math.MinInt16, math.MaxInt16
 	case iI32:
 		return math.MinInt32, math.MaxInt32
-	case iI64, iInt:
+	case iInt:
+		if strconv.IntSize == 32 {
+			return math.MinInt32, math.MaxInt32
+		}
+		return math.MinInt64, math.MaxInt64
+	case iUint:
+		if strconv.IntSize == 32 {
+			return 0, math.MaxUint32
+		}
+		return 0, math.MaxUint64
+	case iI64:
 		return math.MinInt64, math.MaxInt64
 	case iU8:
 		return 0, math.MaxUint8
@@ -834,6 +889,22 @@ func gen(a Args, out *Out) {
 		for j := 0; j < 10; j++ {
 			emit("body-int", List(Int(0), genInt(rng, k, true)))
 		}
+	}
+	// integers around every width boundary, through every accessor (a 32-bit int anywhere in a
+	// conversion shows here on 32-bit builds)
+	for _, v := range []int64{1 << 31, 1<<31 - 1, 1<<31 + 1, -(1 << 31), -(1 << 31) - 1, -(1 << 31) + 1, 1 << 32, 1<<32 - 1, 1<<32 + 1,
+		-(1 << 32), 1 << 40, -(1 << 40), 1<<40 + 12345, 1 << 53, 1<<53 + 1, 1 << 62, math.MaxInt64, math.MaxInt64 - 1, math.MinInt64, math.MinInt64 + 1} {
+		emit("body-int-edge", List(Int(0), List(Int(1), Int(iI64), Int(v))))
+		emit("body-int-edge", List(Int(6), Int(0), List(Int(1), Int(iI64), Int(v))))
+		if v >= 0 {
+			emit("body-int-edge", List(Int(0), List(Int(1), Int(iU64), Int(v))))
+			if v <= math.MaxUint32 {
+				emit("body-int-edge", List(Int(0), List(Int(1), Int(iU32), Int(v))))
+			}
+		}
+	}
+	for _, v := range []uint64{1 << 63, 1<<63 + 1, math.MaxUint64, math.MaxUint64 - 1, 1<<63 - 1} {
+		emit("body-int-edge", List(Int(0), List(Int(1), Int(iU64), Uint(v))))
 	}
 	for _, b := range f32Special {
 		emit("body-float", List(Int(0), List(Int(3), Uint(b), Uint(widen32(uint32(b))))))
@@ -1127,6 +1198,22 @@ func gen(a Args, out *Out) {
 			}
 		}
 	}
+	// highly compressible bodies far beyond every constant of the codec package (8 MiB is the V2
+	// frame limit; the frame limit applies to the deflated size): they fit a frame of either
+	// codec once deflated and must arrive verbatim
+	csizes := []int{8<<20 - 1, 8 << 20, 8<<20 + 1, 9 << 20}
+	if a.Thorough() {
+		csizes = append(csizes, 61440, 61441, 1<<20+1, 16<<20, 16<<20+1, 33<<20)
+	}
+	for _, size := range csizes {
+		for cd := 1; cd <= 2; cd++ {
+			kind := 2 + (size+cd)%2
+			in := List(Int(7), Int(int64(kind)), Int(int64(size)), Uint(rng.Next()), Int(int64(cd)), Int(0), Bool(size%3 == 0))
+			out.GoChecked++
+			out.Count("big-body runs")
+			out.Case("big-compressible", true, in, run(in))
+		}
+	}
 	// volume: the numeric wire/text forms and the error-code path evaluated directly in Go
 	nvol := 30000
 	if a.Thorough() {
@@ -1180,12 +1267,11 @@ func gen(a Args, out *Out) {
 		catchViol("C07/go/float32-readback", "float32 body does not read back as the value set", List(Int(0), List(Int(3), Uint(uint64(b32)), Uint(widen32(b32)))), func() bool {
 			p := packet.Make()
 			p.SetBody(math.Float32frombits(b32))
-			got := math.Float32bits(float32(p.BodyToFloat()))
-			want := b32
+			f := p.BodyToFloat()
 			if b32&0x7f800000 == 0x7f800000 && b32&0x007fffff != 0 {
-				want |= 0x00400000
+				return f != f // a NaN stays a NaN; sign and payload are the platform's business
 			}
-			return got == want
+			return math.Float32bits(float32(f)) == b32
 		})
 	}
 	var encs []codec.Encoder
